@@ -149,6 +149,24 @@ def check_state(res, p, rng, ctx):
 
     res.count("native_roundtrips")
     load_and_compare(raw, "native", True)
+    if ctx.get("origin") == "random":
+        # the same bytes as they sit in a larger stream: zero padding behind them (block-padded storage), and a foreign header
+        # in front of them with the stream handed over positioned at the project
+        pad = bytes(rng.choice([8, 12, 16, 64, 512]))
+        res.count("padded_streams")
+        load_and_compare(raw + pad, "zero-padding-behind", True)
+        junk = bytes(rng.randrange(1, 256) for _ in range(rng.choice([4, 16, 37])))
+        try:
+            from io import BytesIO
+            import rv.api as api
+            f = BytesIO(junk + raw)
+            f.seek(len(junk))
+            q = api.read_sunvox_file(f)
+            res.count("offset_streams")
+            if monitors.links_consistent(q) or monitors.edge_multiset(q) != edges:
+                res.violation("C08:edges-differ:stream-at-offset", f"project read from a stream positioned behind a {len(junk)}-byte foreign header: edges {monitors.edge_multiset(q)}, saved {edges}", dict(case, variant="stream-at-offset"))
+        except Exception as e:
+            res.violation(f"C08:unloadable:stream-at-offset:{workload.exc_key(e)}", f"project read from a stream positioned behind a foreign header: {e!r}", dict(case, variant="stream-at-offset"))
     if ctx.get("origin") == "random" and rng.random() < 0.12:
         # through a FILE NAME, twice on the same name: an earlier state of the project was saved there and loaded before; then
         # this state (same length when only links moved, same timestamp when both saves fall into one clock tick or a tool
